@@ -1,7 +1,31 @@
-"""C08 - see family_a.py."""
+"""C08 - time integration: family A clauses + RK4 state save/restore pairing + advance ordering."""
 
+from ..report import Finding
+from ..rules import r_pair
 from . import family_a
+from .c12 import state_keys
+
+
+def _extra(db, res, tier, scope):
+  # RK4 perturbs qpos/qvel/act for its stage evaluations: they must be restored from the t0 clones before the final advance
+  n = r_pair.check_pairs(res, db, "forward.rungekutta4", state_keys(), require_recompute=False, later_ok=lambda eff: "forward._advance" in eff.ev.stack)
+  res.floor("RK4 save/restore pairs", n, 2)
+  # _advance: history insertion precedes the time advance; warmstart is copied from qacc
+  hi = db.trace("forward._advance")
+  evs = hi.events
+  ins = [e.seq for e in evs if e.kind == "enter" and e.name == "history.insert_ctrl_history"]
+  tim = [e.seq for e in evs if e.kind == "launch" and e.name.endswith("_next_time")]
+  res.ob(bool(ins) and bool(tim) and ins[0] < tim[0], "_advance|history-before-time", Finding("R-SEQ.3", "forward._advance|history-before-time", "the control history must be inserted before time is advanced (the sample is stamped with the pre-step time)", "mujoco_warp/_src/forward.py"))
+  cps = [e for e in evs if e.kind == "copy" and e.dst is not None and e.dst.text.endswith(".qacc_warmstart")]
+  res.ob(bool(cps) and cps[0].src is not None and cps[0].src.text.endswith(".qacc"), "_advance|warmstart", Finding("R-SEQ.3", "forward._advance|warmstart-from-qacc", "qacc_warmstart is not copied from qacc in _advance", "mujoco_warp/_src/forward.py"))
+  # each state field is advanced by exactly one launch of _advance itself
+  for fld, kern in (("qvel", "_next_velocity"), ("qpos", "_next_position"), ("act", "_next_activation")):
+    ls = [e for e in evs if e.kind == "launch" and e.name.endswith(kern) and len(e.stack) == 1]
+    res.ob(len(ls) == 1, f"_advance|{fld}", Finding("R-SEQ.3", f"forward._advance|{fld}|advanced-once", f"{fld} is advanced by {len(ls)} launches of {kern} in _advance (expected exactly one)", "mujoco_warp/_src/forward.py"))
+  order = [next((e.seq for e in evs if e.kind == "launch" and e.name.endswith(k)), None) for k in ("_next_activation", "_next_velocity", "_next_position")]
+  res.ob(None not in order and order[0] < order[1] < order[2], "_advance|order", Finding("R-SEQ.3", "forward._advance|order", "activation, velocity and position must be advanced in this order (semi-implicit Euler uses the new velocity for the position)", "mujoco_warp/_src/forward.py"))
 
 
 def run(db, res, tier):
-  family_a.run_family(db, res, tier, "C08")
+  family_a.run_family(db, res, tier, "C08", extra=_extra)
+  res.rule_text += "; R-PAIR: RK4 restores qpos/qvel/act from its t0 clones before the final advance; R-SEQ: _advance inserts history before advancing time, advances act, qvel, qpos once each in that order, copies qacc into qacc_warmstart"
